@@ -6,7 +6,11 @@
 //	                           closure translated to a small IR + purity facts of the code it reaches
 //	verif_c42                  one case per stdin line (`case <hex json>`): reconcile the cluster three times
 //	                           against controller-runtime's fake client and once more against a fresh one,
-//	                           deep-compare every owned object between rounds
+//	                           deep-compare every owned object between rounds; every write request
+//	                           (Create/Update/Patch/Delete/DeleteAllOf/Apply) is recorded per pass through a
+//	                           client interceptor, resourceVersions are compared between passes, and the same
+//	                           spec/env is reconciled once under the short `twin` name to compare the number
+//	                           of owned objects per kind
 package main
 
 import (
@@ -25,6 +29,7 @@ import (
 	appsv1 "k8s.io/api/apps/v1"
 	autoscalingv2 "k8s.io/api/autoscaling/v2"
 	batchv1 "k8s.io/api/batch/v1"
+	apierrors "k8s.io/apimachinery/pkg/api/errors"
 	corev1 "k8s.io/api/core/v1"
 	policyv1 "k8s.io/api/policy/v1"
 	metav1 "k8s.io/apimachinery/pkg/apis/meta/v1"
@@ -32,9 +37,11 @@ import (
 	"k8s.io/apimachinery/pkg/types"
 	"sigs.k8s.io/controller-runtime/pkg/client"
 	"sigs.k8s.io/controller-runtime/pkg/client/fake"
+	"sigs.k8s.io/controller-runtime/pkg/client/interceptor"
 )
 
 type caseIn struct {
+	Twin      string                               `json:"twin"`
 	Name      string                               `json:"name"`
 	Namespace string                               `json:"namespace"`
 	Spec      kafscalev1alpha1.KafscaleClusterSpec `json:"spec"`
@@ -45,7 +52,81 @@ type caseIn struct {
 type objDump struct {
 	Kind string
 	Name string
+	RV   string
 	JSON map[string]any
+}
+
+// writeRec: one write request (Create/Update/Patch/Delete/DeleteAllOf/Apply) that reached the API
+// server during one reconcile pass.  Status-subresource writes go through other client methods and
+// are deliberately not counted (VerifC42ReconcileObjects issues none).
+type writeRec struct {
+	Op   string `json:"op"`
+	Kind string `json:"kind"`
+	Name string `json:"name"`
+	RV0  string `json:"rv0"`
+	RV1  string `json:"rv1"`
+}
+
+type recorder struct {
+	s      *runtime.Scheme
+	writes []writeRec
+}
+
+func (r *recorder) kind(obj client.Object) string {
+	if gvks, _, err := r.s.ObjectKinds(obj); err == nil && len(gvks) > 0 {
+		return gvks[0].Kind
+	}
+	return fmt.Sprintf("%T", obj)
+}
+
+func (r *recorder) rec(op string, obj client.Object, rv0 string, err error) {
+	rv1 := obj.GetResourceVersion()
+	if err != nil {
+		rv1 = "err"
+		if apierrors.IsNotFound(err) {
+			rv1 = "notfound"
+		}
+	}
+	r.writes = append(r.writes, writeRec{Op: op, Kind: r.kind(obj), Name: obj.GetName(), RV0: rv0, RV1: rv1})
+}
+
+func (r *recorder) funcs() interceptor.Funcs {
+	return interceptor.Funcs{
+		Create: func(ctx context.Context, c client.WithWatch, obj client.Object, opts ...client.CreateOption) error {
+			rv0 := obj.GetResourceVersion()
+			err := c.Create(ctx, obj, opts...)
+			r.rec("create", obj, rv0, err)
+			return err
+		},
+		Update: func(ctx context.Context, c client.WithWatch, obj client.Object, opts ...client.UpdateOption) error {
+			rv0 := obj.GetResourceVersion()
+			err := c.Update(ctx, obj, opts...)
+			r.rec("update", obj, rv0, err)
+			return err
+		},
+		Patch: func(ctx context.Context, c client.WithWatch, obj client.Object, patch client.Patch, opts ...client.PatchOption) error {
+			rv0 := obj.GetResourceVersion()
+			err := c.Patch(ctx, obj, patch, opts...)
+			r.rec("patch", obj, rv0, err)
+			return err
+		},
+		Delete: func(ctx context.Context, c client.WithWatch, obj client.Object, opts ...client.DeleteOption) error {
+			rv0 := obj.GetResourceVersion()
+			err := c.Delete(ctx, obj, opts...)
+			r.rec("delete", obj, rv0, err)
+			return err
+		},
+		DeleteAllOf: func(ctx context.Context, c client.WithWatch, obj client.Object, opts ...client.DeleteAllOfOption) error {
+			err := c.DeleteAllOf(ctx, obj, opts...)
+			r.rec("deleteAllOf", obj, "", err)
+			return err
+		},
+		Apply: func(ctx context.Context, c client.WithWatch, obj runtime.ApplyConfiguration, opts ...client.ApplyOption) error {
+			err := c.Apply(ctx, obj, opts...)
+			r.writes = append(r.writes, writeRec{Op: "apply", Kind: fmt.Sprintf("%T", obj)})
+			return err
+		},
+	}
 }
 
 func scheme() *runtime.Scheme {
@@ -81,9 +162,10 @@ func dumpAll(ctx context.Context, c client.Client, ns string) ([]objDump, error)
 			return err
 		}
 		for _, m := range arr {
+			rv, _ := m["metadata"].(map[string]any)["resourceVersion"].(string)
 			strip(m)
 			name, _ := m["metadata"].(map[string]any)["name"].(string)
-			out = append(out, objDump{Kind: kind, Name: name, JSON: m})
+			out = append(out, objDump{Kind: kind, Name: name, RV: rv, JSON: m})
 		}
 		return nil
 	}
@@ -245,26 +327,74 @@ func newCluster(in caseIn) *kafscalev1alpha1.KafscaleCluster {
 	}
 }
 
-func runRounds(in caseIn, s *runtime.Scheme, rounds int) (dumps [][]objDump, errText string) {
+// compareRV: the resourceVersion of every owned object must not move between two passes of an
+// unchanged cluster (an Update that rewrites identical end-of-pass content still bumps it).
+func compareRV(a, b []objDump) string {
+	idx := map[string]string{}
+	for _, o := range a {
+		idx[o.Kind+"/"+o.Name] = o.RV
+	}
+	for _, o := range b {
+		if rv, ok := idx[o.Kind+"/"+o.Name]; ok && rv != o.RV {
+			return fmt.Sprintf("diff(%s/%s:resourceVersion %s->%s)", o.Kind, o.Name, rv, o.RV)
+		}
+	}
+	return "same"
+}
+
+func kindCounts(d []objDump) map[string]int {
+	m := map[string]int{}
+	for _, o := range d {
+		m[o.Kind]++
+	}
+	return m
+}
+
+// compareCounts: metamorphic relation — the same spec and environment under another cluster name
+// must own the same number of objects of every kind.
+func compareCounts(twin, own []objDump) string {
+	a, b := kindCounts(twin), kindCounts(own)
+	kinds := []string{}
+	for k := range a {
+		kinds = append(kinds, k)
+	}
+	for k := range b {
+		if _, ok := a[k]; !ok {
+			kinds = append(kinds, k)
+		}
+	}
+	sort.Strings(kinds)
+	for _, k := range kinds {
+		if a[k] != b[k] {
+			return fmt.Sprintf("diff(%s:count %d->%d)", k, a[k], b[k])
+		}
+	}
+	return "same"
+}
+
+func runRounds(in caseIn, s *runtime.Scheme, rounds int) (dumps [][]objDump, writes [][]writeRec, errText string) {
 	ctx := context.Background()
 	cluster := newCluster(in)
-	c := fake.NewClientBuilder().WithScheme(s).WithStatusSubresource(cluster).WithObjects(cluster).Build()
+	rec := &recorder{s: s}
+	c := fake.NewClientBuilder().WithScheme(s).WithStatusSubresource(cluster).WithObjects(cluster).WithInterceptorFuncs(rec.funcs()).Build()
 	r := &operator.ClusterReconciler{Client: c, Scheme: s, Publisher: operator.NewSnapshotPublisher(c)}
 	for i := 0; i < rounds; i++ {
+		rec.writes = nil
 		var cur kafscalev1alpha1.KafscaleCluster
 		if err := c.Get(ctx, types.NamespacedName{Name: in.Name, Namespace: in.Namespace}, &cur); err != nil {
-			return dumps, "get:" + err.Error()
+			return dumps, writes, "get:" + err.Error()
 		}
 		if err := operator.VerifC42ReconcileObjects(ctx, r, &cur); err != nil {
-			return dumps, fmt.Sprintf("round%d:%s", i+1, err.Error())
+			return dumps, writes, fmt.Sprintf("round%d:%s", i+1, err.Error())
 		}
 		d, err := dumpAll(ctx, c, in.Namespace)
 		if err != nil {
-			return dumps, "dump:" + err.Error()
+			return dumps, writes, "dump:" + err.Error()
 		}
 		dumps = append(dumps, d)
+		writes = append(writes, append([]writeRec{}, rec.writes...))
 	}
-	return dumps, ""
+	return dumps, writes, ""
 }
 
 func runCase(in caseIn, s *runtime.Scheme) map[string]any {
@@ -274,7 +404,7 @@ func runCase(in caseIn, s *runtime.Scheme) map[string]any {
 	if rounds < 2 {
 		rounds = 3
 	}
-	a, errA := runRounds(in, s, rounds)
+	a, wr, errA := runRounds(in, s, rounds)
 	res["err"] = errA
 	if errA != "" || len(a) < rounds {
 		return res
@@ -284,7 +414,30 @@ func runCase(in caseIn, s *runtime.Scheme) map[string]any {
 		cmp = append(cmp, compare(a[i-1], a[i]))
 	}
 	res["rounds"] = cmp
-	b, errB := runRounds(in, s, 1)
+	// write monitor: passes 2.. of an unchanged cluster must send no write request at all, and no
+	// owned object's resourceVersion may move
+	rvs, repeat := []string{}, []writeRec{}
+	for i := 1; i < len(a); i++ {
+		rvs = append(rvs, compareRV(a[i-1], a[i]))
+		for _, w := range wr[i] {
+			w.Op = fmt.Sprintf("pass%d:%s", i+1, w.Op)
+			repeat = append(repeat, w)
+		}
+	}
+	res["rv"] = rvs
+	res["repeat_writes"] = repeat
+	res["first_pass_writes"] = len(wr[0])
+	if in.Twin != "" && in.Twin != in.Name {
+		tw := in
+		tw.Name = in.Twin
+		t, _, errT := runRounds(tw, s, 1)
+		if errT != "" {
+			res["twin"] = "err:" + errT
+		} else {
+			res["twin"] = compareCounts(t[0], a[0])
+		}
+	}
+	b, _, errB := runRounds(in, s, 1)
 	if errB != "" {
 		res["err"] = "fresh:" + errB
 		return res
